@@ -1519,17 +1519,25 @@ impl<'a> CompileState<'a> {
                 self.append_instruction(Instruction::Not);
             }
             FactCountType::AtMost(_) => {
-                self.append_instruction(Instruction::FactCount(
-                    limit.checked_add(1).assume("fact count too large")?,
-                ));
+                let limit_plus_one = limit.checked_add(1).ok_or_else(|| {
+                    self.err(BadArgument(
+                        "count limit is too large".to_string(),
+                        limit.span(),
+                    ))
+                })?;
+                self.append_instruction(Instruction::FactCount(limit_plus_one));
                 self.append_instruction(Instruction::Const(ConstValue::Int(*limit)));
                 self.append_instruction(Instruction::Gt);
                 self.append_instruction(Instruction::Not);
             }
             FactCountType::Exactly(_) => {
-                self.append_instruction(Instruction::FactCount(
-                    limit.checked_add(1).assume("fact count too large")?,
-                ));
+                let limit_plus_one = limit.checked_add(1).ok_or_else(|| {
+                    self.err(BadArgument(
+                        "count limit is too large".to_string(),
+                        limit.span(),
+                    ))
+                })?;
+                self.append_instruction(Instruction::FactCount(limit_plus_one));
                 self.append_instruction(Instruction::Const(ConstValue::Int(*limit)));
                 self.append_instruction(Instruction::Eq);
             }
